@@ -1439,6 +1439,17 @@ func TestC05(t *testing.T) {
 	}
 	reg(99, authtypes.NewModuleAddress(markertypes.ModuleName))
 	reg(100, authtypes.NewModuleAddress(govtypes.ModuleName))
+	// The marker module account (the coin pool) and the governance account EXIST as module accounts,
+	// as on every chain whose marker module has minted once.  On a fresh app the account is created
+	// lazily by the first mint; a governance send to that address BEFORE it exists makes the bank
+	// create a plain BaseAccount there, after which every MintCoins / BurnCoins of the marker module
+	// panics ("account is not a module account") - see findings/C05.md, observation 4.  The model
+	// assumes the module account exists.
+	for _, name := range []string{markertypes.ModuleName, govtypes.ModuleName} {
+		if acc := app.AccountKeeper.GetModuleAccount(base, name); acc == nil {
+			t.Fatalf("module account %s cannot be created", name)
+		}
+	}
 	if app.MarkerKeeper.GetAuthority() != e.addrs[100].String() {
 		t.Fatalf("marker authority is not the gov module account")
 	}
